@@ -178,6 +178,18 @@ CHECKS = {
         note="Faults act on whole messages; handshake messages are delivered faithfully; timeouts are virtual (fire when nothing else can run).",
         design_ref="DESIGN.md section 3 C03",
     ),
+    "C08": dict(
+        engine="N+T",
+        technique="exhaustive enumeration of first messages x validator behaviours x pipelined message sequences by a raw peer against the real request loop of both servers, with message-level interleavings",
+        text="A raw peer sends one of 30 first messages (valid CONNECT per serializer, CONNECT for an unknown object / unknown serializer / malformed payloads, every other message "
+             "type including INVOKE, oneway and batch of a logging method, corrupt headers, garbage, nothing) with up to three further messages pipelined behind it in the same "
+             "write or after the reply, against a daemon whose validator accepts, returns odd values or raises one of six exception types, on the multiplex and the thread-pool "
+             "server with a witness client, under all interleavings within the budget. Oracle: the logging object records nothing unless that peer received CONNECTOK, which "
+             "only a valid handshake accepted by the validator gets; non-CONNECT first message, raising validator and unknown object yield CONNECTFAIL with the reason "
+             "followed by end of stream and nothing else; no RESULT on a refused connection; the witness is served.",
+        note="Pre-connected socket pairs are exempt by the statement; a validator raising Pyro's ConnectionClosedError is treated as 'peer went away' by the daemon.",
+        design_ref="DESIGN.md section 3 C08",
+    ),
 }
 
 NOT_YET = {}
